@@ -152,6 +152,23 @@ pub fn c16(a: &Args) {
             history(&mut out, file, tt, &reqs, &tmp, false);
         } }
     }
+    // the scratch state itself: sequences of counting requests on one instance; after each request the answer and
+    // every node's `temp` must be what the Lean state machine (Model/MarkState.lean) holds, which must be clean
+    for (file, tt) in models.iter() {
+        let Ok(mut d) = load(file) else { continue };
+        out.circuit(&export_nodes(&d), &circuit_line(&d));
+        let n = file.n as i32;
+        for _ in 0..(if a.thorough() { 40 } else { 16 }) {
+            let len = match r2.below(8) { 0 => 1, 1..=5 => 2 + r2.below(4), 6 => 20, _ => 21 + r2.below(4) };
+            let lits: Vec<i32> = (0..len).map(|_| { let v = 1 + r2.below(n as usize) as i32; if r2.chance(0.5) { v } else { -v } }).collect();
+            out.eval(Some(format!("{}|ms {:?}", file.text(), lits)));
+            out.count("scratch_state_requests", 1);
+            let Ok(ans) = guarded(|| d.execute_query(&lits).to_string()) else { out.fail("count-panic", &file.text(), &format!("count {:?}", lits), "panic", "a count"); break };
+            if ans != tt.count_with(&lits).to_string() { out.fail("count-in-history", &file.text(), &format!("count {:?}", lits), &ans, &tt.count_with(&lits).to_string()); }
+            let temps: Vec<String> = d.nodes.iter().map(|nd| nd.temp.to_string()).collect();
+            out.query("ms", &fmt_ints(&lits), &format!("{} | {} | clean=true", ans, temps.join(",")));
+        }
+    }
     // two different models enumerated alternately in one process
     for i in 0..models.len().saturating_sub(1) {
         let (f1, t1) = &models[i]; let (f2, t2) = &models[i + 1];
